@@ -472,6 +472,9 @@ class C16(Prop):
         rng = random.Random(case["seed"])
         names = case["names"]
         ttns = build_named_ttns(rng, case["parents"], names, case["phys"], bond=case.get("bond"))
+        if case.get("canon", case["seed"] % 3 == 0):
+            # a state handed over in canonical form (recorded orthogonality centre at a random node)
+            ttns.canonical_form(random.Random(case["seed"] + 1).choice(list(ttns.nodes)))
         ref = copy.deepcopy(ttns)        # untouched copy: every reference value is computed from it
         ttndo = from_ttns(ttns, root_id=case["root_id"], root_bond_dim=case["k"])
         return ttns, ref, ttndo
